@@ -113,6 +113,8 @@ func encodedLineBreak(options option.ExportOptions) []byte {
 	return lineBreak
 }
 
+var errLineBreakInFixedLengthField = NewDataEncodingError("a field containing a line break cannot be written in fixed-length format")
+
 func encodeFixedLengthFormat(ctx context.Context, fp io.Writer, view *View, options option.ExportOptions) error {
 	if options.DelimiterPositions == nil {
 		m := fixedlen.NewMeasure()
@@ -147,6 +149,9 @@ func encodeFixedLengthFormat(ctx context.Context, fp io.Writer, view *View, opti
 			fields := make([]fixedlen.Field, fieldLen)
 			for j := range view.RecordSet[i] {
 				str, _, a := ConvertFieldContents(view.RecordSet[i][j][0], false, options.ScientificNotation)
+				if strings.ContainsAny(str, "\r\n") {
+					return errLineBreakInFixedLengthField
+				}
 				fields[j] = fixedlen.NewField(str, a)
 			}
 			fieldList[i+recordStartPos] = fields
@@ -201,6 +206,9 @@ func encodeFixedLengthFormat(ctx context.Context, fp io.Writer, view *View, opti
 
 			for j := range view.RecordSet[i] {
 				str, _, a := ConvertFieldContents(view.RecordSet[i][j][0], false, options.ScientificNotation)
+				if strings.ContainsAny(str, "\r\n") {
+					return errLineBreakInFixedLengthField
+				}
 				fields[j] = fixedlen.NewField(str, a)
 			}
 			if err := w.Write(fields); err != nil {
